@@ -185,6 +185,7 @@ func (g *genCtx) encodeParams(keys []Key, role Role) []Param {
 			}
 			if g.ft.NamedSlice && !IsIface(k.T) && g.r.P(0.3) {
 				p.NamedSlice = true
+				p.NamedAlt = g.r.P(0.4)
 			}
 			needObj[i] = true
 		} else {
@@ -471,7 +472,11 @@ func (g *genCtx) genDecorator(s int) *Func {
 			obj = &f.Results[len(f.Results)-1]
 		}
 		if k.IsGroup() {
-			obj.Fields = append(obj.Fields, Result{Kind: RGroup, T: k.T, Group: k.Group})
+			named := 0
+			if g.ft.NamedSlice && !IsIface(k.T) && g.r.P(0.35) {
+				named = g.r.Range(1, 2) // the decorated group is returned as a named slice type
+			}
+			obj.Fields = append(obj.Fields, Result{Kind: RGroup, T: k.T, Group: k.Group, NamedRes: named})
 		} else {
 			obj.Fields = append(obj.Fields, Result{Kind: RSingle, T: k.T, Name: k.Name})
 		}
